@@ -55,6 +55,13 @@ Definition anchor_matches (sc : schema) (a : pkt) : Prop :=
 Definition self_signed (w : world) (a : pkt) : Prop :=
   exists k, p_content a = Some k /\ verifies w k a.
 
+(* boolean forms, used by the harness oracle (equivalences in Proofs/ValidatorProofs.v) *)
+Definition anchor_matchesb (sc : schema) (a : pkt) : bool :=
+  match sc_match sc (p_name a) with
+  | Ok (m :: ms) => subsetb (sc_roots sc) (m :: ms)
+  | _ => false
+  end.
+
 (* ------------------------------------------------------------------------------------------------
    Executable reference decision of [Chain] (used by the harness as the direct oracle; proved
    equivalent to [Chain] in Proofs/ValidatorProofs.v).  None = fuel exhausted (certificate loop). *)
@@ -64,6 +71,9 @@ Definition verifiesb (w : world) (k : bytes) (p : pkt) : bool :=
       asymmetric (s_type si) && match w_verify w (s_type si) k p with Ok true => true | _ => false end
   | _, _ => false
   end.
+
+Definition self_signedb (w : world) (a : pkt) : bool :=
+  match p_content a with Some k => verifiesb w k a | None => false end.
 
 Fixpoint chainb (w : world) (t : trust) (fuel : nat) (p : pkt) : option bool :=
   match key_locator p with
